@@ -125,6 +125,7 @@ type State struct {
 	pc      *pcNode
 	alloc   *Term
 	ghost   map[string]*Term
+	calls   map[string][]Value // arguments of the most recent call to each function (ghost call log)
 	written *writeSet // shared: components written (for loop write-set discovery)
 	dry     bool
 	depth   int
@@ -139,6 +140,10 @@ func (s *State) clone() *State {
 	n.ghost = make(map[string]*Term, len(s.ghost))
 	for k, v := range s.ghost {
 		n.ghost[k] = v
+	}
+	n.calls = make(map[string][]Value, len(s.calls))
+	for k, v := range s.calls {
+		n.calls[k] = v
 	}
 	return &n
 }
@@ -252,6 +257,7 @@ type wrec struct {
 	seen map[string]bool
 }
 type writeSet struct {
+	ghost map[string]bool // ghost keys written ("call:<name>" for call-log entries)
 	comps map[string]*wrec
 	start int // value of the fresh-symbol counter when the dry run started
 }
